@@ -77,13 +77,13 @@ def number(v):
     return r
 
 
-def literal(v, full=False):
+def literal(v, full=False, o=None):
     if v is None:
-        return ["null"]
+        return [o.lits[None] if o else "null"]
     if v is True:
-        return ["true"]
+        return [o.lits[True] if o else "true"]
     if v is False:
-        return ["false"]
+        return [o.lits[False] if o else "false"]
     if isinstance(v, str):
         return [("alt", [[a] for a in string_alts(v, full)])]
     return [number(v)]
@@ -100,6 +100,8 @@ class Opts:
         self.words = {"and": "&&", "or": "||", "not": "!", "ne": "!="}
         if words:
             self.words.update(words)
+        self.lits = {None: "null", True: "true", False: "false"}
+        self.bare = False
 
 
 DEFAULT = Opts()
@@ -108,6 +110,8 @@ DEFAULT = Opts()
 def selector(sel, o):
     k = sel[0]
     if k == "name":
+        if o.bare and shorthand_ok(sel[1]) and sel[1] not in RESERVED:
+            return [sel[1]]
         return [("alt", [[a] for a in string_alts(sel[1], o.full_strings)])]
     if k == "index":
         return [str(sel[1])]
@@ -171,21 +175,24 @@ def query(q, o=DEFAULT):
 def expr(e, o, ctx):
     k = e[0]
     if k == "or":
-        body = expr(e[1], o, 1) + [SP, o.words["or"], SP] + expr(e[2], o, 1)
+        body = expr(e[1], o, 1) + _word(o.words["or"]) + expr(e[2], o, 1)
         return _wrap(body) if ctx >= 2 else body
     if k == "and":
-        body = expr(e[1], o, 2) + [SP, o.words["and"], SP] + expr(e[2], o, 2)
+        body = expr(e[1], o, 2) + _word(o.words["and"]) + expr(e[2], o, 2)
         return _wrap(body) if ctx >= 3 else body
     if k == "not":
         inner = e[1]
+        nt = [o.words["not"] + " "] if o.words["not"][0].isalpha() else [o.words["not"], SP]
         if inner[0] in ("test", "call", "paren", "littest"):
-            return [o.words["not"], SP] + expr(inner, o, 3)
-        return [o.words["not"], SP] + _wrap(expr(inner, o, 0))
+            return nt + expr(inner, o, 3)
+        return nt + _wrap(expr(inner, o, 0))
     if k == "paren":
         return _wrap(expr(e[1], o, 0))
     if k == "cmp":
         op = e[1]
-        body = comparable(e[2], o) + [SP, op, SP] + comparable(e[3], o)
+        if op == "!=":
+            op = o.words["ne"]
+        body = comparable(e[2], o) + _word(op) + comparable(e[3], o)
         return _wrap(body) if ctx >= 3 else body
     if k == "test":
         return query(e[1], o)
@@ -194,6 +201,13 @@ def expr(e, o, ctx):
     if k == "littest":
         return literal(e[1], False)
     raise ValueError(e)
+
+
+def _word(w):
+    """An infix operator: word operators need blanks around them, symbolic ones may have them."""
+    if w[0].isalpha():
+        return [" " + w + " "]
+    return [SP, w, SP]
 
 
 def _wrap(body):
@@ -219,7 +233,7 @@ def argument(a, o):
 def comparable(c, o):
     k = c[0]
     if k == "lit":
-        return literal(c[1], o.full_strings)
+        return literal(c[1], o.full_strings, o)
     if k == "q":
         return query(c[1], o)
     if k == "call":
